@@ -84,6 +84,9 @@ def _exponential(digits: str, e: int) -> str:
     return head + "e" + ("+" if e >= 0 else "-") + str(abs(e))
 
 
+# Arrays have no holes, so a length is an allocation; refuse absurd ones
+MAX_DENSE_ARRAY_LENGTH = 2**24
+
 _MAX_SAFE = 9007199254740992  # 2**53: every integer up to here is a double
 
 
@@ -2478,6 +2481,9 @@ class VM:
                 new_len = to_number(value)
                 # A length is an integer in [0, 2**32 - 1]
                 if not (0 <= new_len < 2**32 and new_len == int(new_len)):
+                    raise JSRangeError("Invalid array length")
+                if new_len > MAX_DENSE_ARRAY_LENGTH and new_len > len(obj._elements):
+                    # Arrays are dense: growing one means allocating every slot
                     raise JSRangeError("Invalid array length")
                 obj.length = int(new_len)
                 return
